@@ -21,6 +21,8 @@ def sig_long(ev, prefix):
             bad.append("output-not-prefix")
         if ev["flat"] and (ev["status"] != "ok" or ev["sizes"]["exec"] != ev["k"] - min(ev["limit"], ev["k"])):
             bad.append("step-count")
+        if "bytes_each" in ev and ev["outbytes"] != ev["bytes_each"] * min(ev["limit"], ev["k"]):
+            bad.append("bytes-printed")
     return f"long:family{ev.get('family')}:{'+'.join(bad) or ev.get('ev')}"
 
 
